@@ -138,6 +138,10 @@ def _time_variants(t):
         out["dt64_s"] = lambda: t.astype("datetime64[s]")
         out["epoch_int"] = lambda: [int(s_) for s_ in secs]
         out["epoch_int_array"] = lambda: secs.astype(np.int64)
+    # datetime64 arrays of coarser units ("datetime64 of any unit"): only for axes the unit can hold exactly
+    for unit, span_ns in (("m", 60 * 10**9), ("h", 3600 * 10**9), ("D", 86400 * 10**9)):
+        if bool(np.all(ns % span_ns == 0)):
+            out["dt64_" + unit] = lambda unit=unit: t.astype("datetime64[%s]" % unit)
     return out
 
 
@@ -313,6 +317,34 @@ class CarrierGrid(Case):
                 continue
             for variant in (("data", "uint8"), ("data", "int16"), ("data", "int8"), ("data", "series"), ("data", "list_nan")):
                 yield ("%s:%s" % variant, "%s:%s" % variant, sv, (lambda values=sv, variant=variant: self.one(values, variant)))
+
+        # time axes on whole minutes / hours / days with irregular steps (the two middle steps differ, so a median
+        # step falls between two units of the carrier), thresholds given in seconds scaled with the unit
+        pat = [0, 1, 3, 4, 6, 7, 9, 10, 12, 13, 15, 16]
+        tkeys = ("st", "ft", "period", "min_period", "D")
+
+        def coarse(v, unit_s):
+            w = dict(v)
+            ok = False
+            for k_, x in v.items():
+                if k_ == "t" and isinstance(x, list) and x and len(x) <= len(pat):
+                    w[k_] = [p_ * unit_s for p_ in pat[: len(x)]]
+                    ok = True
+                elif k_ in tkeys and isinstance(x, (int, float)) and not isinstance(x, bool):
+                    w[k_] = x * unit_s // 60
+            return w if ok else None
+
+        extra = []
+        if self.function == "flat_line_test":
+            extra = [{"n": 9, "x": [1, 1, 1, 1, 1, 1, 1, 1, 1], "t": [0] * 9, "D": 60, "st": 120, "ft": 240, "tol": 0.5}, {"n": 5, "x": [1, 1, 1, 1, 1], "t": [0] * 5, "D": 60, "st": 60, "ft": 150, "tol": 0.5}]
+        if self.function == "attenuated_signal_test":
+            extra = [dict(g_, n=9, x=[1, 1, 1, 5, 1, 1, 1, 1, 1], t=[0] * 9) for g_ in grid[:4] if "t" in g_]
+        for values in extra + grid:
+            for unit, unit_s in (("m", 60), ("h", 3600), ("D", 86400)):
+                cv = coarse(values, unit_s)
+                if cv is not None:
+                    variant = ("time", "dt64_" + unit)
+                    yield ("%s:%s" % variant, "%s:%s" % variant, cv, (lambda values=cv, variant=variant: self.one(values, variant)))
 
     def replay_bounded(self, label, values):
         kind, name = label.split(":")
